@@ -151,6 +151,16 @@ def known_none_state(ctx):
                       {"kind": "dfa_none_state"})
 
 
+def known_nfa_none_state(ctx):
+    """Open finding: an NFA with a state named None passes validate(), every read raises ValueError from networkx
+    ('None cannot be a node') inside _get_lambda_closures."""
+    from automata.fa.nfa import NFA
+    out = outcome(lambda: NFA(states={None, 1}, input_symbols={"a"}, transitions={None: {"a": {1}}}, initial_state=None,
+                              final_states={1}).accepts_input("a"))
+    ctx.open_finding("nfa_state_named_None", out[:2] != ("ok", True),
+                     f"NFA(states={{None, 1}}, None --a--> 1, final 1).accepts_input('a') gives {out}, expected True")
+
+
 def run(ctx):
     ctx.rule = RULE
     rng = ctx.rng
@@ -160,6 +170,7 @@ def run(ctx):
         if (item in d0) is not False:
             ctx.violation(f"membership of non-string {item!r} is not False", {"kind": "nonstr", "item": repr(item)})
     known_none_state(ctx)
+    known_nfa_none_state(ctx)
     n_machines = ctx.n(250, 4000)
     for i in range(n_machines):
         ddef = gen.rand_dfa_def(rng)
